@@ -299,3 +299,30 @@ package treeset
 //@     invariant ItInv(iterator) && iterator.tree == set.tree && fresh(iterator) && fresh(iterator.iterator)
 //@     invariant forall j :: 0 <= j && j <= iterator.index && j < N(set) ==> !f(j, KeyAt(set, j))
 //@     decreases N(set) - iterator.index
+
+// ---- Select / Map (C14) ----
+
+//@ func Set.Select
+//@   requires Inv(set) && f != nil
+//@   modifies nothing
+//@   assert backedge 1: forall x like keylike(set) :: set.tree.Comparator(x, KeyAt(set, iterator.index)) == 0 ==> Rank(set, x) == iterator.index
+//@   assert backedge 1: forall x like keylike(set) :: set.tree.Comparator(x, KeyAt(set, iterator.index)) == 0 ==> Mem(set, x)
+//@   ensures [C14 C16 C17 C18] fresh(result) && Inv(result) && fresh(result.tree) && result.tree.Comparator == set.tree.Comparator
+//@   ensures [C14] members: forall x like keylike(set) :: Mem(result, x) <==> Mem(set, x) && f(Rank(set, x), KeyAt(set, Rank(set, x)))
+//@   loop 1:
+//@     invariant ItInv(iterator) && iterator.tree == set.tree && fresh(iterator) && fresh(iterator.iterator) && fresh(newSet) && Inv(newSet) && fresh(newSet.tree) && newSet.tree.Comparator == set.tree.Comparator
+//@     invariant forall x like set.tree.Root :: fresh(x) ==> x.tr == newSet.tree || x.tr == nil
+//@     invariant forall x like keylike(set) :: Mem(newSet, x) <==> Mem(set, x) && Rank(set, x) <= iterator.index && f(Rank(set, x), KeyAt(set, Rank(set, x)))
+//@     decreases N(set) - iterator.index
+
+//@ -- Map: the result (ordered by the receiver's comparator) holds every mapped element
+//@ func Set.Map
+//@   requires Inv(set) && f != nil
+//@   modifies nothing
+//@   ensures [C14 C16 C17 C18] fresh(result) && Inv(result) && fresh(result.tree) && result.tree.Comparator == set.tree.Comparator && N(result) <= N(set)
+//@   ensures [C14] all: forall j :: 0 <= j && j < N(set) ==> Mem(result, f(j, KeyAt(set, j)))
+//@   loop 1:
+//@     invariant ItInv(iterator) && iterator.tree == set.tree && fresh(iterator) && fresh(iterator.iterator) && fresh(newSet) && Inv(newSet) && fresh(newSet.tree) && newSet.tree.Comparator == set.tree.Comparator && N(newSet) <= min(iterator.index + 1, N(set))
+//@     invariant forall x like set.tree.Root :: fresh(x) ==> x.tr == newSet.tree || x.tr == nil
+//@     invariant forall j :: 0 <= j && j <= iterator.index && j < N(set) ==> Mem(newSet, f(j, KeyAt(set, j)))
+//@     decreases N(set) - iterator.index
